@@ -200,6 +200,12 @@ def Delivery.text : Delivery → Bytes
   | .file c => c
   | .acc ls => ls.flatMap (fun l => cstr l ++ [10])
 
+/-- a delivery through the accumulate buffer hands over at least one line (RunAccumulated right after RunAccumulated would
+    run the old buffer again) -/
+def Delivery.wellFormed : Delivery → Prop
+  | .acc ls => ls ≠ []
+  | _ => True
+
 def W.deliver (eng : Engine E) (w : W E) : Delivery → W E × Nat
   | .str s => w.run eng (.str s)
   | .file c => w.run eng (.file (some c))
